@@ -407,8 +407,19 @@ def rule_R06_5(ctx):
     return r
 
 
+def rule_R06_6(ctx):
+    import c02
+    r = c02.rule_R02_6(ctx, "R06.6")
+    r.title = ("`a .. b` (and every other construct) sizes its result from "
+               "existing lengths, not from the integer bounds")
+    r.necessary_for = ("pre-sizing a range from its bounds aborts for a "
+                       "descending or huge range that denotes a small or empty list")
+    return r
+
+
 def run(ctx):
-    return [rule_R06_1(ctx), rule_R06_2(ctx), rule_R06_3(ctx), rule_R06_4(ctx), rule_R06_5(ctx)]
+    return [rule_R06_1(ctx), rule_R06_2(ctx), rule_R06_3(ctx), rule_R06_4(ctx), rule_R06_5(ctx),
+            rule_R06_6(ctx)]
 
 
 META = {
